@@ -92,7 +92,15 @@ pub struct SimScheduler {
     prios: Vec<u64>,
     change_points: Vec<u64>,
     low_water: u64,
+    // livelock detection: last seen progress-event count and the step at which it changed
+    last_progress: u64,
+    last_progress_step: u64,
 }
+
+/// Scheduling steps without a single progress event (queue admit/take/close, token, barrier,
+/// contig, exit, ...) after which a run is declared livelocked. Polling sleeps do not count as
+/// progress. The largest run observed makes < 1M steps in total.
+pub const NO_PROGRESS_STEPS: u64 = 5_000_000;
 
 impl SimScheduler {
     pub fn new(spec: &SchedSpec) -> (Self, Arc<Mutex<Trace>>) {
@@ -118,6 +126,8 @@ impl SimScheduler {
                 prios: Vec::new(),
                 change_points,
                 low_water: 1 << 20,
+                last_progress: 0,
+                last_progress_step: 0,
             },
             trace,
         )
@@ -174,6 +184,16 @@ impl Scheduler for SimScheduler {
         };
         let step = self.step;
         self.step += 1;
+        if step % 4096 == 0 {
+            let p = ragc_common::verif::with(|w| w.progress_events).unwrap_or(0);
+            if p != self.last_progress {
+                self.last_progress = p;
+                self.last_progress_step = step;
+            } else if step - self.last_progress_step > NO_PROGRESS_STEPS {
+                // declare a livelock: shuttle reports "no task was scheduled"
+                return None;
+            }
+        }
         let chosen = match self.policy.clone() {
             Policy::Uniform => cands[self.rng.below(cands.len() as u64) as usize],
             Policy::Weighted => {
